@@ -60,8 +60,8 @@ def run_with(spec, evaluate, liveness=False):
             r = hang_result(obs, liveness)
             if liveness and obs.hang == 'deadlock':
                 r['violations'] = [oracles.V(
-                    f'deadlock: process quiescent with unfinished obligation "{obs.hang_what}"; '
-                    f'stacks: {json.dumps({k: v[-4:] for k, v in (obs.stacks or {}).items()})[:1500]}',
+                    f'deadlock: process quiescent with unfinished obligation "{obs.hang_what}"; blocked in: '
+                    f'{json.dumps(lib_frames(obs.stacks))[:900]}',
                     **deadlock_mech(obs))]
             return r
         if obs.world.s3.harness_errors:
@@ -91,17 +91,41 @@ def run_with(spec, evaluate, liveness=False):
             scenario.cleanup(obs)
 
 
+def lib_frames(stacks):
+    out = {}
+    for name, st in (stacks or {}).items():
+        lib = [line.split('/s3transfer/')[1] for line in st if '/s3transfer/' in line]
+        if lib:
+            out[name] = lib[-5:]
+    return out
+
+
 def deadlock_mech(obs):
-    """Mechanism fields of a deadlock witness: which library frames are blocked."""
-    frames = []
+    """Mechanism fields of a deadlock witness: which library frames are blocked
+    and which re-entrant subscriber call (if any) never returned."""
+    mech = {'sym': 'deadlock', 'blocked_call': getattr(obs, 'hang_what', None)}
+    under_cancel = False
     for name, st in (obs.stacks or {}).items():
-        for line in st:
-            if '/s3transfer/' in line:
-                frames.append(line.split('/s3transfer/')[1])
-    mech = {'sym': 'deadlock', 'what': getattr(obs, 'hang_what', None)}
-    joined = ' '.join(frames)
-    mech['in_cancel_under_lock'] = ('futures.py' in joined and ' cancel' in joined and 'announce_done' in joined)
-    mech['reentrant_subscriber'] = any('cb.reenter' == e['kind'] for e in obs.events[-60:]) if hasattr(obs, 'events') else False
+        lib = [line for line in st if '/s3transfer/' in line]
+        names = [line.rsplit(' ', 1)[-1] for line in lib]
+        if 'cancel' in names and 'announce_done' in names and names.index('cancel') < names.index('announce_done'):
+            under_cancel = True
+    mech['announce_under_cancel_lock'] = under_cancel
+    pending = None
+    evs = getattr(obs, 'events', None) or obs.world.log.snapshot()
+    open_calls = {}
+    for e in evs:
+        if e['kind'] == 'cb.reenter':
+            open_calls[(e['label'], e['sub'], e['where'], e['act'])] = e
+        elif e['kind'] == 'cb.reenter.ret':
+            open_calls.pop((e['label'], e['sub'], e['where'], e['act']), None)
+    if open_calls:
+        k = sorted(open_calls)[0]
+        mech['reenter_where'] = k[2]
+        mech['reenter_act'] = k[3]
+    else:
+        mech['reenter_where'] = None
+        mech['reenter_act'] = None
     return mech
 
 
